@@ -1,7 +1,9 @@
 (* C07 - records and record sets have value semantics and exact set algebra.
-   Statements only; the proofs are in Proofs/SetAlg.v, SetRdata.v, SetMachine.v. *)
+   Statements only; the proofs are in Proofs/SetAlg.v, SetRdata.v, SetMachine.v, SetRds.v,
+   SetRdsMachine.v, SetTtl.v, SetImm.v. *)
 From Coq Require Import Permutation.
-From DV Require Import Base.Prelude Model.SetM Proofs.SetAlg Proofs.SetRdata Proofs.SetMachine.
+From DV Require Import Base.Prelude Model.SetM Proofs.SetAlg Proofs.SetRdata Proofs.SetMachine
+  Proofs.SetRds Proofs.SetRdsMachine Proofs.SetTtl Proofs.SetImm.
 Open Scope Z_scope.
 
 (* ---------------- records: equality, hash, order ---------------- *)
@@ -146,6 +148,166 @@ Theorem eq_permutation : forall s s', ND s -> Permutation s s' -> seq rd_eqb s s
 Proof. exact set_eq_perm. Qed.
 Print Assumptions eq_permutation.
 
+(* ---------------- Rdataset / ImmutableRdataset / RRset ---------------- *)
+
+(* every reachable state, for all operation sequences over all registers and aliasings: members
+   pairwise unequal, no member of another class/type/covered type, singleton types hold at most
+   one record *)
+Theorem rdataset_inv : forall ops r s,
+  nth_error (rexec [] ops) r = Some s ->
+  ND (items s) /\
+  (forall x, In x (items s) -> rcls x = cls s /\ rtyp x = typ s) /\
+  (is_sigtype (typ s) = true -> forall x, In x (items s) -> rcov x = cov s) /\
+  (is_singleton (typ s) = true -> (length (items s) <= 1)%nat).
+Proof. exact rds_machine_inv. Qed.
+Print Assumptions rdataset_inv.
+
+(* add() succeeds exactly on records of the set's class, type and covered type *)
+Theorem rdataset_add_ok_iff : forall s rd ottl,
+  snd (radd s rd ottl) = Ok tt <-> compat s rd /\ cov_ok s rd.
+Proof. exact radd_ok_iff. Qed.
+Print Assumptions rdataset_add_ok_iff.
+
+(* wrong class or type: IncompatibleTypes and nothing changes *)
+Theorem rdataset_refuses_type : forall s rd ottl,
+  ~ compat s rd -> radd s rd ottl = (s, Lib eIncompatibleTypes).
+Proof. exact radd_refuses_type. Qed.
+Print Assumptions rdataset_refuses_type.
+
+(* wrong covered type: DifferingCovers; only the TTL has been minimised (as in the code) *)
+Theorem rdataset_refuses_covers : forall s rd ottl,
+  compat s rd -> ~ cov_ok s rd ->
+  radd s rd ottl = (match ottl with Some t => update_ttl s t | None => s end, Lib eDifferingCovers).
+Proof. exact radd_refuses_covers. Qed.
+Print Assumptions rdataset_refuses_covers.
+
+Theorem rdataset_refuses : forall s rd ottl,
+  snd (radd s rd ottl) <> Ok tt ->
+  items (fst (radd s rd ottl)) = items s /\ cls (fst (radd s rd ottl)) = cls s /\
+  typ (fst (radd s rd ottl)) = typ s /\ cov (fst (radd s rd ottl)) = cov s.
+Proof. exact radd_failure_keeps_members. Qed.
+Print Assumptions rdataset_refuses.
+
+(* a non-empty rdataset of another class/type cannot be merged in *)
+Theorem rdataset_union_refuses : forall self other,
+  wf other -> items other <> [] -> (cls other <> cls self \/ typ other <> typ self) ->
+  r_union_update self other false = (update_ttl self (ttl other), Lib eIncompatibleTypes).
+Proof. exact r_union_update_refuses. Qed.
+Print Assumptions rdataset_union_refuses.
+
+Theorem singleton_keeps_newest : forall s rd ottl,
+  is_singleton (typ s) = true -> compat s rd -> cov_ok s rd ->
+  exists s', radd s rd ottl = (s', Ok tt) /\ items s' = [rd] /\ ttl s' = merged_ttl s ottl.
+Proof. exact singleton_newest. Qed.
+Print Assumptions singleton_keeps_newest.
+
+Theorem singleton_union_keeps_newest : forall self other y,
+  wf other -> mergeable self other -> is_singleton (typ self) = true -> items other = [y] ->
+  exists s', r_union_update self other false = (s', Ok tt) /\ items s' = [y] /\
+    ttl s' = (if isempty self then ttl other else Z.min (ttl self) (ttl other)).
+Proof. exact r_union_update_singleton. Qed.
+Print Assumptions singleton_union_keeps_newest.
+
+Theorem rdataset_add : forall s rd ottl,
+  is_singleton (typ s) = false -> compat s rd -> cov_ok s rd ->
+  exists s', radd s rd ottl = (s', Ok tt) /\ items s' = sadd rd_eqb rd (items s) /\
+             ttl s' = merged_ttl s ottl.
+Proof. exact add_nonsingleton. Qed.
+Print Assumptions rdataset_add.
+
+(* the four in-place algorithms through the Rdataset overrides (Set.union_update calls
+   Rdataset.add, TTL minimisation first): set theory on the members, first-insertion order *)
+Theorem rdataset_algebra : forall a self other,
+  wf self -> wf other -> mergeable self other -> is_singleton (typ self) = false ->
+  exists s', ralg a self other false = (s', Ok tt) /\
+    (forall x, rmem x (items s') = alg_bool a (rmem x (items self)) (rmem x (items other))) /\
+    items s' = alg_order rdata rd_eqb a (items self) (items other).
+Proof. exact ralg_mem. Qed.
+Print Assumptions rdataset_algebra.
+
+Theorem rdataset_algebra_ttl : forall a self other,
+  wf other -> mergeable self other -> is_singleton (typ self) = false ->
+  exists s', ralg a self other false = (s', Ok tt) /\
+    items s' = salg a (items self) (items other) false /\
+    ttl s' = (match a with
+              | ADiff => ttl self
+              | _ => if isempty self then ttl other else Z.min (ttl self) (ttl other)
+              end) /\
+    kd s' = kd self /\ cls s' = cls self /\ typ s' = typ self.
+Proof. exact ralg_ok. Qed.
+Print Assumptions rdataset_algebra_ttl.
+
+Theorem rdataset_algebra_aliased : forall a self,
+  ralg a self self true = (with_items self (salg a (items self) (items self) true), Ok tt).
+Proof. exact ralg_aliased. Qed.
+Print Assumptions rdataset_algebra_aliased.
+
+Theorem rdataset_copying_forms : forall w self other,
+  wf other -> mergeable self other -> is_singleton (typ self) = false ->
+  exists x, r_func w self other = Ok x /\
+    items x = salg (func_alg w) (items self) (items other) false /\
+    kd x = kd self /\
+    ttl x = (match func_alg w with
+             | ADiff => ttl self
+             | _ => if isempty self then ttl other else Z.min (ttl self) (ttl other)
+             end).
+Proof. exact r_func_ok. Qed.
+Print Assumptions rdataset_copying_forms.
+
+(* the TTL of every rdataset, after any operation sequence, is the minimum of the non-empty
+   list of TTL literals merged into it (directly or through other sets) since it was last
+   empty; the list is the ghost history computed by gstep *)
+Theorem ttl_is_min : forall ops r s,
+  nth_error (rexec [] ops) r = Some s ->
+  exists hs, hs = hget (snd (rexec_g [] [] ops)) r /\ hs <> [] /\ ttl s = hmin hs /\
+             forall t, In t hs -> In t (flat_map op_literals ops).
+Proof. exact ttl_is_min_of_merged. Qed.
+Print Assumptions ttl_is_min.
+
+Theorem ttl_ghost_is_erasable : forall ops st h, fst (rexec_g st h ops) = rexec st ops.
+Proof. exact rexec_g_fst. Qed.
+Print Assumptions ttl_ghost_is_erasable.
+
+(* no aliasing effects: a set that is not the target of an operation is not changed by it *)
+Theorem rdataset_frame : forall st op r,
+  rtarget op <> Some r -> nth_error (fst (rstep st op)) r = nth_error st r.
+Proof. exact rstep_frame. Qed.
+Print Assumptions rdataset_frame.
+
+(* an ImmutableRdataset is never modified by any method *)
+Theorem immutable_rdataset_unchanged : forall st op r s,
+  nth_error st r = Some s -> kd s = KImm -> rrebind op <> Some r ->
+  nth_error (fst (rstep st op)) r = Some s.
+Proof. exact imm_unchanged. Qed.
+Print Assumptions immutable_rdataset_unchanged.
+
+(* ---------------- immutability guard, constify ---------------- *)
+
+Theorem init_restores_context : forall a g, gctx (fst (gact g a)) = gctx g.
+Proof. exact gact_ctx. Qed.
+Print Assumptions init_restores_context.
+
+Theorem setattr_after_init_raises : forall l o k v,
+  let g := grun (mkG None [] []) l in
+  gact g (ASet o k v) = (mkG None (gstore g) (glog g ++ [E eTypeError]), false) /\
+  gact g (ADel o k) = (mkG None (gstore g) (glog g ++ [E eTypeError]), false).
+Proof. exact setattr_after_init_raises_all. Qed.
+Print Assumptions setattr_after_init_raises.
+
+Theorem setattr_in_foreign_init_raises : forall g o o' k v,
+  gctx g = Some o' -> o' <> o ->
+  gact g (ASet o k v) = (mkG (gctx g) (gstore g) (glog g ++ [E eTypeError]), false).
+Proof. exact setattr_inside_other_init. Qed.
+Print Assumptions setattr_in_foreign_init_raises.
+
+Theorem constify_immutable : forall v, pre v = true -> imm (constify v) = true.
+Proof. exact constify_imm. Qed.
+Print Assumptions constify_immutable.
+
+Theorem constify_keeps_immutable : forall v, imm v = true -> constify v = v.
+Proof. exact constify_id. Qed.
+Print Assumptions constify_keeps_immutable.
+
 (* ---------------- non-vacuity ---------------- *)
 
 (* two NS records that differ in the case of the target: distinct objects, equal, same hash *)
@@ -173,3 +335,48 @@ Proof. reflexivity. Qed.
 
 Example ex_order : rd_cmp ex_rel ex_a = -1 /\ rd_cmp ex_a ex_b = -1 /\ lex_lt [1; 97; 0] [1; 98; 0].
 Proof. repeat split. apply lex_tail, lex_head. lia. Qed.
+
+(* Rdataset examples: hypotheses of the Rdataset theorems are satisfiable *)
+Definition ex_ns := mkRds KRds 1 2 0 300 [ex_a] [] None.
+Definition ex_ns2 := mkRds KRds 1 2 0 60 [ex_A; ex_b] [] None.
+Definition ex_cname := mkRds KRds 1 5 0 300 [mkRd 7 1 5 0 [1; 97; 0] false] [] None.
+Definition ex_sig := mkRds KRds 1 46 1 300 [] [] None.
+
+Example ex_wf : wf ex_ns /\ wf ex_ns2 /\ wf ex_cname /\ mergeable ex_ns ex_ns2.
+Proof.
+  split; [apply wfb_wf; reflexivity|]. split; [apply wfb_wf; reflexivity|].
+  split; [apply wfb_wf; reflexivity|]. split; [reflexivity|]. split; [reflexivity|].
+  cbn. intros H. discriminate H.
+Qed.
+
+Example ex_union_ttl :
+  r_union_update ex_ns ex_ns2 false = (mkRds KRds 1 2 0 60 [ex_a; ex_b] [] None, Ok tt).
+Proof. reflexivity. Qed.
+
+Example ex_refuse :
+  ~ compat ex_ns (mkRd 9 1 1 0 [1; 2; 3; 4] false) /\
+  (compat ex_sig (mkRd 9 1 46 2 [0; 2] false) /\ ~ cov_ok ex_sig (mkRd 9 1 46 2 [0; 2] false)) /\
+  (compat ex_cname (mkRd 8 1 5 0 [1; 98; 0] false) /\ cov_ok ex_cname (mkRd 8 1 5 0 [1; 98; 0] false)).
+Proof.
+  split; [intros [H1 H2]; cbn in H2; discriminate H2|].
+  split.
+  - split; [split; reflexivity|]. unfold cov_ok. cbn. intros [H|[[_ H]|H]]; discriminate H.
+  - split; [split; reflexivity|]. left. reflexivity.
+Qed.
+
+Example ex_ttl_machine :
+  let ops := [RNew 0 1 2 0 0; RAdd 0 ex_a (Some 300); RNew 1 1 2 0 0; RAdd 1 ex_b (Some 60);
+              RInpl IUnion 0 1; RClear 0; RAdd 0 ex_b (Some 900)] in
+  map ttl (rexec [] ops) = [900; 60] /\ snd (rexec_g [] [] ops) = [[900]; [60]].
+Proof. split; reflexivity. Qed.
+
+Example ex_guard :
+  glog (grun (mkG None [] []) [AInit 0 [ASet 0 1 5; AInit 1 [ASet 0 2 6; ARaise]; ASet 0 3 7]; ASet 0 1 9])
+  = [N; E eTypeError; E 999; E eTypeError].
+Proof. reflexivity. Qed.
+
+Example ex_constify :
+  pre (VList [VByteArray [1]; VTuple [VList []]; VDict [(VInt 1, VList [VNone])]]) = true /\
+  constify (VList [VByteArray [1]; VTuple [VList []]; VDict [(VInt 1, VList [VNone])]])
+  = VTuple [VBytes [1]; VTuple [VTuple []]; VFrozen [(VInt 1, VTuple [VNone])]].
+Proof. split; reflexivity. Qed.
